@@ -104,20 +104,29 @@ func (lm *levelManager) recover() int64 {
 		}
 
 		// read and decode footer
+		// a table file without a valid footer is what a flush or compaction leaves behind when the
+		// process dies before the file is complete; its entries are still in the wal or in the tables
+		// it was meant to replace, so it is skipped instead of stopping recovery
 		_, err = fd.Seek(-40, io.SeekEnd)
 		if err != nil {
-			lm.logger.Panicf("failed to seek footer: %v", err)
+			lm.logger.Warnf("skip incomplete sstable %s: %v", file, err)
+			_ = fd.Close()
+			continue
 		}
 
 		footerBytes := make([]byte, 40)
 		_, err = fd.Read(footerBytes)
 		if err != nil {
-			lm.logger.Panicf("failed to read footer: %v", err)
+			lm.logger.Warnf("skip incomplete sstable %s: %v", file, err)
+			_ = fd.Close()
+			continue
 		}
 
 		var footer table.Footer
 		if err = footer.Decode(footerBytes); err != nil {
-			lm.logger.Panicf("failed to decode footer: %v", err)
+			lm.logger.Warnf("skip incomplete sstable %s: %v", file, err)
+			_ = fd.Close()
+			continue
 		}
 
 		// read and decode index block
